@@ -67,6 +67,29 @@ Definition obs_ok (H : histories) (o : read_obs) : bool :=
   end.
 Definition si_ok (H : histories) (obs : list read_obs) : bool := forallb (obs_ok H) obs.
 
+(* a range read (scan): reader's start ts, the keys of the range (ascending; every key the checker knows), the reader's
+   buffered writes, the returned pairs. Accepted iff the result is exactly the own-write-or-history read of every key
+   of the range that has a value, in key order - none missing, none extra (python: the scan clause of si_history_ok) *)
+Record scan_obs := mkScan { so_ts : ts; so_keys : list key; so_own : list (key * option value); so_res : list (key * value) }.
+Fixpoint own_lookup (own : list (key * option value)) (k : key) : option (option value) :=
+  match own with [] => None | (k', w) :: r => if k' =? k then Some w else own_lookup r k end.
+Definition scan_expect (H : histories) (o : scan_obs) (k : key) : option value :=
+  match own_lookup (so_own o) k with Some w => w | None => hist_read (hist_lookup H k) (so_ts o) end.
+Fixpoint pairs_eqb (a b : list (key * value)) : bool :=
+  match a, b with
+  | [], [] => true
+  | (k1, v1) :: r1, (k2, v2) :: r2 => (k1 =? k2) && (v1 =? v2) && pairs_eqb r1 r2
+  | _, _ => false
+  end.
+Definition scan_want (H : histories) (o : scan_obs) : list (key * value) :=
+  flat_map (fun k => match scan_expect H o k with Some v => [(k, v)] | None => [] end) (so_keys o).
+Definition scan_ok (H : histories) (o : scan_obs) : bool := pairs_eqb (scan_want H o) (so_res o).
+(* the point observation a scan implies for one key of its range *)
+Definition scan_point (o : scan_obs) (k : key) : read_obs :=
+  mkObs (so_ts o) k (own_lookup (so_own o) k)
+        ((fix find (l : list (key * value)) : option value :=
+            match l with [] => None | (k', v) :: r => if k' =? k then Some v else find r end) (so_res o)).
+
 (* ------------------------------------------------------------------ read stability *)
 (* no GC above the read ts and no DeleteRange (unsafe destroy range) *)
 Definition gc_ok (t : ts) (c : cmd) : bool := match c with GC _ _ sp => sp <=? t | DeleteRange _ _ => false | _ => true end.
